@@ -39,6 +39,11 @@ CLAIMED = {
    note="Trusted: TLC, Collection.tla, the driver's recording of rule order and conversion callback events (public callback parameter of Backend.convert). Documents referenced both with and without generate are Unspecified and not generated.",
    technique="TLA+ state machine of reference resolution/ordering/conversion model-checked over all permutations; traces of the real code validated against it with TLC",
    ref="6/C09"),
+ "C08": dict(level=MC,
+   text="TLC model-checks spec/Conversion.tla (MC_Conversion): every collection of 1..3/4 rule kinds x collect on/off converted step by step (apply / convert / emit / fail): per-rule pipeline state and class templates never carry into the next rule, emitted queries equal the per-rule 'alone' result, a failing rule yields no query and one error record, strict mode stops at the first failure, termination. Conformance: every kind sequence (7 kinds, 4 failure stages, every position) x collect x with/without a correlation rule is converted by the real backend with a stateful pipeline and output format; TLC decides the accounting relation between the collection's output/error records and fresh per-rule conversions.",
+   note="Trusted: TLC, Conversion.tla, the driver (fresh backend/pipeline/rule objects for the 'alone' reference; error records read from backend.errors). Non-Sigma exceptions such as NotImplementedError for features a backend lacks are outside this property's failure stages.",
+   technique="TLA+ conversion state machine with failure transitions model-checked with TLC; TLC-generated collections replayed into the code; TLC judges the recorded accounting",
+   ref="6/C08"),
 }
 REASON_NOT_BUILT = "check not built yet in this round (see DESIGN.md section 6 for the planned TLA+ model); not claimed until its judge is sound"
 ALL = [f"C{i:02d}" for i in range(1, 21)]
